@@ -139,7 +139,8 @@ def play(ctx, name, hist, res, cmds, exp, tags):
         res.evaluations += 1
         res.count(step[0])
         inp = {"base": BASE_LINES, "history": [list(map(str, s)) for s in hist[: si + 1]]}
-        case = {"scenario": "history", "base": BASE_LINES, "input": jsonable_history(hist[: si + 1]), "config": cfg0.to_json()}
+        case = {"scenario": "history", "base": BASE_LINES, "input": jsonable_history(hist[: si + 1]),
+                "config": cfg0.to_json()}
         if step[0] == "update":
             _, feats, strategy = step
             lines = [feat_line(fid, parents, ftype, start) for fid, parents, ftype, start in feats]
@@ -161,12 +162,14 @@ def play(ctx, name, hist, res, cmds, exp, tags):
             cmds.append(dbside.cmd_update(lines, cfg)); exp.append(got); tags.append(("update", repr(inp)))
             if want != "ok":
                 if got == "ok":
-                    common.fail(res, case, "update_duplicate_not_failed", "update with a duplicate key did not fail under merge_strategy=%r" % strategy,
+                    common.fail(res, case, "update_duplicate_not_failed",
+                                "update with a duplicate key did not fail under merge_strategy=%r" % strategy,
                                 observed=got, expected="an exception", update_lines=lines)
                 alive = False
                 break
             if got != "ok":
-                common.fail(res, case, "update_raised", "update raised (%s) although the strategy prescribes an outcome" % got,
+                common.fail(res, case, "update_raised",
+                            "update raised (%s) although the strategy prescribes an outcome" % got,
                             error=got, observed=exc, expected="ok", update_lines=lines)
                 alive = False
                 break
@@ -214,8 +217,9 @@ def play(ctx, name, hist, res, cmds, exp, tags):
         pa = dbside.pauto_of(db2)
         for base, n in ref.counters.items():
             if pa.get(base, 0) < n:
-                common.fail(res, {"scenario": "history", "base": BASE_LINES, "input": jsonable_history(hist), "config": cfg0.to_json()},
-                            "persistent_counter_behind", "the persistent counter for %r is behind the keys handed out" % base,
+                common.fail(res, {"scenario": "history", "base": BASE_LINES, "input": jsonable_history(hist),
+                                  "config": cfg0.to_json()}, "persistent_counter_behind",
+                            "the persistent counter for %r is behind the keys handed out" % base,
                             counter_base=base, observed=pa.get(base, 0), expected=n)
     return changing
 
@@ -264,7 +268,8 @@ def check_backup(ctx, case, res):
         return
     bak = dbside.dump(gffutils.FeatureDB(dbfn + ".bak"))
     if bak != before:
-        common.fail(res, case, "bak_not_preoperation_database", "the .bak file is not the complete pre-operation database",
+        common.fail(res, case, "bak_not_preoperation_database",
+                    "the .bak file is not the complete pre-operation database",
                     outcome=outcome, observed=bak, expected=before)
     res.count("backup_%s_%s" % (op, outcome))
 
@@ -335,8 +340,9 @@ def run(ctx):
     # backup completeness, also when the source fails at every position ------------------------------------
     for fail_at in [None, 0, 1, 2, 3]:
         for op in ("update", "delete"):
-            check_backup(ctx, {"scenario": "backup", "op": op, "fail_at": fail_at, "base": BASE_LINES, "input": BACKUP_LINES,
-                               "delete_ids": ["b", "c", "d"], "config": cfg0.to_json(), "no_shrink": True}, res)
+            check_backup(ctx, {"scenario": "backup", "op": op, "fail_at": fail_at, "base": BASE_LINES,
+                               "input": BACKUP_LINES, "delete_ids": ["b", "c", "d"], "config": cfg0.to_json(),
+                               "no_shrink": True}, res)
     out = ctx.model(cmds)
     if out is not None:
         for c, m, e, (comp, inp) in zip(cmds, out, exp, tags):
